@@ -114,7 +114,7 @@ class RpcDispatcher(object):
         for cid, method, args in q:
             self.k.in_rpc = cid
             snap = self.k.snapshot()
-            self.k.rec('rpc-begin', id=cid, method=method, args=list(args), procs=snap['procs'], mood=snap['mood'])
+            self.k.rec('rpc-begin', id=cid, method=method, args=list(args), procs=snap['procs'], mood=snap['mood'], missing=sorted(self.k.missing))
             try:
                 ns, name = method.split('.')
                 fn = getattr(self.k.rpc if ns == 'supervisor' else self.k.sysrpc, name)
@@ -126,6 +126,8 @@ class RpcDispatcher(object):
                     self.k.rec('rpc-answer', id=cid, method=method, value=canon(res))
             except xmlrpc.RPCError as e:
                 self.k.rec('rpc-answer', id=cid, method=method, fault=e.code)
+            except Exception:
+                self.handle_error()        # what runforever's guard does with any other exception
             finally:
                 self.k.in_rpc = None
     def handle_write_event(self):
@@ -304,7 +306,8 @@ class SimKernel(object):
         d = {}
         if isinstance(e, self.ev.ProcessStateEvent):
             d = dict(process=e.process.config.name, group=(e.process.group.config.name if e.process.group else ''),
-                     frm=e.from_state, extra=dict(e.extra_values))
+                     frm=e.from_state, extra=dict(e.extra_values), pid=e.process.pid, tries=e.process.backoff,
+                     expected=int(bool(e.expected)))
         elif isinstance(e, (self.ev.ProcessGroupAddedEvent, self.ev.ProcessGroupRemovedEvent)):
             d = dict(group=e.group)
         elif isinstance(e, self.ev.TickEvent):
@@ -329,6 +332,7 @@ class SimKernel(object):
         name = fn[len('/sim/'):]
         self.last_cmd = name
         if name in self.missing:
+            self.rec('stat-missing', name=name)
             raise OSError(errno.ENOENT, 'no such file')
         return _os.stat('/bin/sh')
 
@@ -414,9 +418,13 @@ class SimKernel(object):
 
     def kill(self, pid, sig):
         sig = int(sig)
-        r = self.rec('kill', pid=pid, sig=sig, rpc=self.in_rpc)
-        self.fault('kill')
         c = self.children.get(abs(pid))
+        r = self.rec('kill', pid=pid, sig=sig, rpc=self.in_rpc, name=(c.name if c else None))
+        try:
+            self.fault('kill')
+        except OSError as e:
+            r['result'] = 'esrch' if e.errno == errno.ESRCH else 'fail'
+            raise
         if c is None or c.state == 'reaped':
             r['result'] = 'esrch'
             raise OSError(errno.ESRCH, 'no such process')
